@@ -36,7 +36,9 @@ def build_stack(rng, stack):
             body = pkt.udp(rng.getrandbits(16), rng.getrandbits(16), body, None, rng.getrandbits(16))
         elif kind == "ipv6":
             nh = {"tcp": 6, "udp": 17}.get(inner, 59)
-            body = pkt.ipv6(pkt.rand_bytes(rng, 16), pkt.rand_bytes(rng, 16), nh, body, rng.getrandbits(8), rng.getrandbits(20), None, rng.getrandbits(8))
+            # now and then a version nibble other than 6 (a damaged header is still decoded by its EtherType / protocol)
+            body = pkt.ipv6(pkt.rand_bytes(rng, 16), pkt.rand_bytes(rng, 16), nh, body, rng.getrandbits(8), rng.getrandbits(20), None, rng.getrandbits(8),
+                            6 if rng.random() < 0.8 else rng.choice([0, 4, 7, 15]))
         elif kind == "ipv4":
             pr = {"tcp": 6, "udp": 17, "ipv6": 41}.get(inner, 1)
             ihl = rng.choice([5, 5, 6, 10, 15])
@@ -181,14 +183,22 @@ def run(chk):
             for d in touched:
                 lines.append("push(__o, [%s]);" % ", ".join("L%d.%s" % (d, n) for n in all_props(d)))
             lines.append("let o = pcap_open(%s, \"w\"); pcap_write(o, p); push(__o, \"written\");" % lit(outp))
+            inner_d = None
+            if depth is not None and depth + 1 < len(stack) and asg[0][1] not in ("type", "proto", "nextheader"):
+                # the layer inside the assigned one, looked at for the first time only now: it reads as in an untouched copy
+                inner_d = depth + 1
+                iprops = [n for n in pkt.FIELDS[stack[inner_d]].keys()]
+                lines.append("let ref = pcap_read_next(pcap_open(%s)); push(__o, [%s]); push(__o, [%s]);" % (
+                    lit(inp), ", ".join("%s.%s" % (path_expr("ref", stack, inner_d), n) for n in iprops),
+                    ", ".join("%s.%s" % (path_expr("p", stack, inner_d), n) for n in iprops)))
             cid = "a%d" % ji
             cases.append(Case(cid, "\n".join(lines), {"globals": "__o", "steps": 200000}))
-            meta[cid] = (stack, starts, frame, seq, touched, outp)
+            meta[cid] = (stack, starts, frame, seq, touched, outp, inner_d)
         res = core.run_cases(cases)
         # second pass: re-read the written files
         cases2 = []
         verdicts = {}
-        for cid, (stack, starts, frame, seq, touched, outp) in meta.items():
+        for cid, (stack, starts, frame, seq, touched, outp, inner_d) in meta.items():
             r = res.get(cid)
             if r is None:
                 chk.inconc("missing result")
@@ -302,6 +312,12 @@ def run(chk):
                         k_ = next(i for i in range(len(frame)) if exp[i] != written[i])
                         bad = "written bytes differ from the expected ones at offset %d (layer starts %s): wrote %s, expected %s" % (
                             k_, starts, written[max(0, k_ - 2):k_ + 6].hex(), bytes(exp)[max(0, k_ - 2):k_ + 6].hex())
+            if not bad and inner_d is not None:
+                tail = obs[2 * nt + 2 * len(seq) + 1:]
+                if len(tail) == 2 and tail[0] != tail[1]:
+                    names = list(pkt.FIELDS[stack[inner_d]].keys())
+                    diff = [n for n, x, y in zip(names, tail[0][1], tail[1][1]) if x != y]
+                    bad = "after the assignment the %s layer inside, read for the first time, differs from an untouched copy of the packet in %s" % (stack[inner_d], diff)
             chk.observed(tag + ("stored",))
             if len(chk.samples) < 10 and hash(cid) % 50 == 0:
                 chk.sample({"stack": stack, "assignments": ["%s.%s = %s" % (x[0], x[1], x[5]) for _, x in seq], "outcome": oc})
